@@ -1477,6 +1477,10 @@ class ExplicitTag(StandardEncodeMixin, StandardDecodeMixin, Type):
         self.inner = inner
 
     def set_default(self, value):
+        # The inner type is shared with every other use of the same
+        # explicitly tagged type (only the wrapper is copied by the
+        # compiler), which must not get this DEFAULT.
+        self.inner = copy(self.inner)
         self.inner.set_default(value)
 
     def get_default(self):
